@@ -1634,6 +1634,7 @@ impl UntypedPattern {
             PatternEnum::NumUnsigned(n, suffix) => {
                 if let Some(ty) = &ty {
                     expect_num_type(ty, meta)?;
+                    expect_unsigned_pattern_of_type(*n, *suffix, ty, meta)?;
                     PatternEnum::NumUnsigned(*n, *suffix)
                 } else {
                     return Err(vec![None]);
@@ -1642,6 +1643,7 @@ impl UntypedPattern {
             PatternEnum::NumSigned(n, suffix) => {
                 if let Some(ty) = &ty {
                     expect_signed_num_type(ty, meta)?;
+                    expect_signed_pattern_of_type(*n, *suffix, ty, meta)?;
                     PatternEnum::NumSigned(*n, *suffix)
                 } else {
                     return Err(vec![None]);
@@ -1650,6 +1652,8 @@ impl UntypedPattern {
             PatternEnum::UnsignedInclusiveRange(from, to, suffix) => {
                 if let Some(ty) = &ty {
                     expect_num_type(ty, meta)?;
+                    expect_unsigned_pattern_of_type(*from, *suffix, ty, meta)?;
+                    expect_unsigned_pattern_of_type(*to, *suffix, ty, meta)?;
                     PatternEnum::UnsignedInclusiveRange(*from, *to, *suffix)
                 } else {
                     return Err(vec![None]);
@@ -1658,6 +1662,8 @@ impl UntypedPattern {
             PatternEnum::SignedInclusiveRange(from, to, suffix) => {
                 if let Some(ty) = &ty {
                     expect_signed_num_type(ty, meta)?;
+                    expect_signed_pattern_of_type(*from, *suffix, ty, meta)?;
+                    expect_signed_pattern_of_type(*to, *suffix, ty, meta)?;
                     PatternEnum::SignedInclusiveRange(*from, *to, *suffix)
                 } else {
                     return Err(vec![None]);
@@ -2380,6 +2386,55 @@ fn expect_signed_num_type(ty: &Type, meta: MetaInfo) -> Result<(), TypeErrors> {
             TypeErrorEnum::ExpectedSignedNumberType(ty.clone()),
             meta,
         ))]),
+    }
+}
+
+/// A number pattern must be representable in the type it is matched against (and a type suffix, if
+/// present, must name that type), otherwise it would silently match a truncated value.
+fn expect_unsigned_pattern_of_type(
+    n: u64,
+    suffix: UnsignedNumType,
+    ty: &Type,
+    meta: MetaInfo,
+) -> Result<(), TypeErrors> {
+    let fits = match ty {
+        Type::Unsigned(ty) => {
+            (suffix == UnsignedNumType::Unspecified || suffix == *ty)
+                && ty.max().map(|max| n <= max).unwrap_or(true)
+        }
+        Type::Signed(ty) => {
+            suffix == UnsignedNumType::Unspecified
+                && ty.max().map(|max| n <= max as u64).unwrap_or(true)
+        }
+        _ => false,
+    };
+    if fits {
+        Ok(())
+    } else {
+        let e = TypeErrorEnum::PatternDoesNotMatchType(ty.clone());
+        Err(vec![Some(TypeError::new(e, meta))])
+    }
+}
+
+fn expect_signed_pattern_of_type(
+    n: i64,
+    suffix: SignedNumType,
+    ty: &Type,
+    meta: MetaInfo,
+) -> Result<(), TypeErrors> {
+    let fits = match ty {
+        Type::Signed(ty) => {
+            (suffix == SignedNumType::Unspecified || suffix == *ty)
+                && ty.min().map(|min| n >= min).unwrap_or(true)
+                && ty.max().map(|max| n <= max).unwrap_or(true)
+        }
+        _ => false,
+    };
+    if fits {
+        Ok(())
+    } else {
+        let e = TypeErrorEnum::PatternDoesNotMatchType(ty.clone());
+        Err(vec![Some(TypeError::new(e, meta))])
     }
 }
 
